@@ -13,7 +13,7 @@ from vf.writers import envelope as w
 
 ID = "C16"
 LEVEL = "fault_enumeration"
-STEP_BUDGET = 5_000_000
+STEP_BUDGET = 4_000_000_000  # a case is hundreds of decrypt calls; termination is C11's subject
 ANCHOR_FILES = ["dissect/hypervisor/util/envelope.py", "dissect/hypervisor/tools/envelope.py"]
 RULE = (
     "An independent envelope writer (layout confirmed against the repository sample, which it re-creates byte for byte "
@@ -33,12 +33,12 @@ ASSUMPTIONS = [
     "pycryptodome/hashlib are the primitives on both sides of the oracle",
     "held means: held on the executions listed, not verified for all inputs",
 ]
-MINIMA = {"quick": {"roundtrips": 80, "tamper_cases": 2500, "cli_runs": 12, "keystore_checks": 40}, "thorough": {"tamper_cases": 25000}}
+MINIMA = {"quick": {"roundtrips": 80, "tamper_cases": 2500, "cli_runs": 12, "keystore_checks": 40}, "thorough": {"tamper_cases": 250000}}
 MECH = "envelope.decrypt"
 
 
 def plan(tier: str, seed: int) -> list[dict]:
-    n = 90 if tier == "quick" else 1200
+    n = 90 if tier == "quick" else 5000
     cases = [{"k": "env", "i": i, "weight": 2} for i in range(n)]
     cases += [{"k": "big", "i": i, "weight": 30} for i in range(2 if tier == "quick" else 10)]
     cases += [{"k": "keystore", "i": i, "weight": 10} for i in range(8 if tier == "quick" else 60)]
